@@ -69,6 +69,7 @@ EXT = {
         "logging.critical", "logging.log", "warnings.warn", "time.time", "time.monotonic", "time.perf_counter",
     )},
     "object.__new__": ("pure", ()),  # a bare instance: no constructor body runs (VAL3 reports the bypass)
+    "copy.copy": ("pure", ()),  # a new object of the same class whose attributes are the *same* objects (effects.loc aliases them)
     "super": ("pure", ()),
     "super.__init__": ("pure", ()),  # Exception.__init__: stores args on the new object
     "super.__add__": ("pure", ()),  # tuple.__add__
